@@ -41,7 +41,7 @@ def uintRequest (kv : KV) : Option String := do
   let ws ← parseWords? kv
   match UniformInt.tryNew t (t.ofInt lo) (t.ofInt hi) (incl != 0) with
   | .error _ =>
-    if via == "try" || via == "sampler" then pure "err:EmptyRange" else pure "panic"
+    if via == "try" || via == "sampler" || via == "utrait" then pure "err:EmptyRange" else pure "panic"
   | .ok d =>
     pure (showResult ws.length (fun vs => commaInts (vs.map t.toInt)) (repeatDraw (UniformInt.sample t d) n ws))
 
@@ -92,6 +92,32 @@ def multiRequest (kv : KV) : Option String := do
   let ws ← parseWords? kv
   pure (showResult ws.length (fun (r : Array Nat × Nat) => toString r.2 ++ ":" ++ commaNats r.1.toList)
     (Seq.multiple items buf.toArray ws))
+
+/-- `bigshuf`: `partial_shuffle(slice, m)` on a slice of `n` elements of which only the first `m` are marked: a sparse simulation of
+the same loop (`k = range(i..n); swap(i, k)`), positions of the marks afterwards -/
+def bigshufRequest (kv : KV) : Option String := do
+  let n ← kv.nat? "n"
+  let m ← kv.nat? "m"
+  let ws ← parseWords? kv
+  let cnt := if n > 1 then min m (n - 1) else 0
+  -- sparse slice: association list position -> mark (0 = unmarked)
+  let get (l : List (Nat × Nat)) (p : Nat) : Nat := ((l.find? (·.1 == p)).map (·.2)).getD 0
+  let set (l : List (Nat × Nat)) (p v : Nat) : List (Nat × Nat) := (p, v) :: l.filter (·.1 != p)
+  let rec go : Nat → Nat → List (Nat × Nat) → Words → Option (List (Nat × Nat) × Words)
+    | 0, _, l, ws => some (l, ws)
+    | c+1, i, l, ws =>
+      match Seq.rangeUsize i n ws with
+      | none => none
+      | some (k, ws') =>
+        let a := get l i
+        let b := get l k
+        go c (i+1) (set (set l i b) k a) ws'
+  let init := (List.range m).map fun i => (i, i + 1)
+  match go cnt 0 init ws with
+  | none => pure "panic"
+  | some (l, ws') =>
+    let pos := (List.range m).map fun j => ((l.find? (·.2 == j + 1)).map (·.1)).getD 0
+    pure ("ok:" ++ commaNats pos ++ ":" ++ toString (ws.length - ws'.length))
 
 def alnumRequest (kv : KV) : Option String := do
   let n ← kv.nat? "n"
